@@ -25,6 +25,7 @@ import (
 	"github.com/XiaoMi/Gaea/models"
 	"github.com/XiaoMi/Gaea/proxy/server"
 	"pgregory.net/rapid"
+	"verifharness/internal/nsenv"
 	"verifharness/internal/nsgen"
 	"verifharness/internal/pbt"
 )
@@ -40,9 +41,13 @@ type cred struct {
 }
 
 type op struct {
-	Kind  string `json:"kind"` // reload | delete
+	Kind  string `json:"kind"` // reload | delete | bad_prepare | reload_around_failed_prepare
 	NS    int    `json:"ns"`
 	Users []cred `json:"users,omitempty"`
+	// the failing prepare of bad_prepare / reload_around_failed_prepare (Manager only)
+	BadNS    int    `json:"bad_ns,omitempty"`
+	BadUsers []cred `json:"bad_users,omitempty"`
+	BadKind  int    `json:"bad_kind,omitempty"` // which defect nsenv.BadConfig plants (1..4)
 }
 
 type c29Case struct {
@@ -101,14 +106,31 @@ func genCase(t *rapid.T) c29Case {
 	n := rapid.IntRange(3, 9).Draw(t, "n_ops")
 	for i := 0; i < n; i++ {
 		o := op{NS: rapid.IntRange(0, nNamespaces-1).Draw(t, fmt.Sprintf("op%d_ns", i))}
-		if rapid.IntRange(0, 3).Draw(t, fmt.Sprintf("op%d_kind", i)) == 3 {
-			o.Kind = "delete"
-		} else {
-			o.Kind = "reload"
-			nu := rapid.IntRange(1, 3).Draw(t, fmt.Sprintf("op%d_nu", i))
+		k := rapid.IntRange(0, 9).Draw(t, fmt.Sprintf("op%d_kind", i))
+		genUsers := func(label string) []cred {
+			var us []cred
+			nu := rapid.IntRange(1, 3).Draw(t, fmt.Sprintf("op%d_%s_n", i, label))
 			for j := 0; j < nu; j++ {
-				o.Users = append(o.Users, cred{genName(fmt.Sprintf("op%d_u%d", i, j)), genWord(t, fmt.Sprintf("op%d_p%d", i, j), passes)})
+				us = append(us, cred{genName(fmt.Sprintf("op%d_%s_u%d", i, label, j)), genWord(t, fmt.Sprintf("op%d_%s_p%d", i, label, j), passes)})
 			}
+			return us
+		}
+		switch {
+		case k >= 8:
+			o.Kind = "delete"
+		case k == 7:
+			o.Kind = "bad_prepare"
+		case k == 6:
+			o.Kind = "reload_around_failed_prepare"
+			o.Users = genUsers("u")
+		default:
+			o.Kind = "reload"
+			o.Users = genUsers("u")
+		}
+		if k == 6 || k == 7 {
+			o.BadNS = rapid.IntRange(0, nNamespaces-1).Draw(t, fmt.Sprintf("op%d_badns", i))
+			o.BadUsers = genUsers("bad")
+			o.BadKind = rapid.IntRange(1, nsenv.BadKinds).Draw(t, fmt.Sprintf("op%d_badkind", i))
 		}
 		c.Ops = append(c.Ops, o)
 	}
@@ -296,7 +318,7 @@ func probePairs(c c29Case, fixed []cred) []cred {
 		note(f)
 	}
 	for _, o := range c.Ops {
-		for _, u := range o.Users {
+		for _, u := range append(append([]cred{}, o.Users...), o.BadUsers...) {
 			note(u)
 			// the same text cut at another colon
 			joined := u.U + ":" + u.P
@@ -321,28 +343,19 @@ func probePairs(c c29Case, fixed []cred) []cred {
 	return out
 }
 
-// colonRelated is the classifier of finding C29-F1: the user the mismatch is
-// about is the user of a pair that was configured at some point of the history
-// and contains ':' (in the name or in the password), or is the text before the
-// first ':' of such a pair's name.
-func colonRelated(user string, everConfigured []cred) bool {
-	for _, c := range everConfigured {
-		if !strings.Contains(c.U, ":") && !strings.Contains(c.P, ":") {
-			continue
-		}
-		if user == c.U || user == strings.SplitN(c.U+":"+c.P, ":", 2)[0] {
-			return true
-		}
-	}
-	return false
-}
-
 type stepper interface {
 	reload(ns string, users []cred) error
 	remove(ns string) error
+	// failedPrepare stages a configuration of ns (with the given users) that the
+	// proxy cannot build; it must be refused. Steppers without a prepare phase return errNoPrepare.
+	failedPrepare(ns string, users []cred, kind int) error
+	// reloadAround is reload(ns, users) with a failing prepare of badNS between its prepare and its commit.
+	reloadAround(ns string, users []cred, badNS string, badUsers []cred, kind int) error
 	current() authenticator
 	previous() authenticator // generation before the last step (nil if not observable)
 }
+
+var errNoPrepare = fmt.Errorf("no prepare phase")
 
 // run interprets the history against a stepper and the reference.
 func run(c c29Case, s stepper, base model, fixed []cred) (o pbt.Outcome) {
@@ -354,20 +367,24 @@ func run(c c29Case, s stepper, base model, fixed []cred) (o pbt.Outcome) {
 	pairs := probePairs(c, fixed)
 	var ever []cred
 	ever = append(ever, fixed...)
-	var knownDetail string
 	sharedName, colonPw := false, false
-	diverged := false // after a mismatch only the reference is advanced (for the case's labels)
 	for i, op := range c.Ops {
 		ns := nsName(op.NS % nNamespaces)
+		badNS := nsName(op.BadNS % nNamespaces)
 		prev := m.clone()
 		var err error
 		switch op.Kind {
 		case "delete":
 			o.Labels = append(o.Labels, "op_delete")
 			delete(m, ns)
-			if !diverged {
-				err = s.remove(ns)
+			err = s.remove(ns)
+		case "bad_prepare":
+			// a failed prepare changes nothing: the reference stays as it is
+			err = s.failedPrepare(badNS, op.BadUsers, op.BadKind)
+			if err == errNoPrepare {
+				continue
 			}
+			o.Labels = append(o.Labels, "op_failed_prepare")
 		default:
 			users := admissible(m, ns, op.Users)
 			if len(users) == 0 {
@@ -381,12 +398,18 @@ func run(c c29Case, s stepper, base model, fixed []cred) (o pbt.Outcome) {
 			}
 			m[ns] = users
 			ever = append(ever, users...)
-			if !diverged {
+			err = errNoPrepare
+			if op.Kind == "reload_around_failed_prepare" {
+				if err = s.reloadAround(ns, users, badNS, op.BadUsers, op.BadKind); err != errNoPrepare {
+					o.Labels = append(o.Labels, "op_failed_prepare_before_commit")
+				}
+			}
+			if err == errNoPrepare {
 				err = s.reload(ns, users)
 			}
 		}
 		if err != nil {
-			o.Violation = fmt.Sprintf("step %d %s %s failed: %v", i, op.Kind, ns, err)
+			o.Violation = fmt.Sprintf("step %d %s %s: %v", i, op.Kind, ns, err)
 			return
 		}
 		// non-trivial: this step touched one namespace while another one holds one of the affected user names
@@ -408,31 +431,15 @@ func run(c c29Case, s stepper, base model, fixed []cred) (o pbt.Outcome) {
 				colonPw = true
 			}
 		}
-		if diverged {
-			continue
-		}
-		check := func(a authenticator, ref model, which string) bool {
-			mm := audit(a, ref, pairs, c.Salt)
-			if mm == nil {
-				return true
-			}
-			detail := fmt.Sprintf("after step %d (%s %s)%s: %s", i, op.Kind, ns, which, mm.detail)
-			if colonRelated(mm.user, ever) {
-				if knownDetail == "" {
-					knownDetail = detail
-				}
-				return false
-			}
-			o.Violation = detail
-			return false
-		}
-		if !check(s.current(), m, "") {
-			diverged = true // the state has diverged from the reference; auditing later steps would only repeat it
-		} else if p := s.previous(); p != nil && !check(p, prev, " [previous generation must be unchanged]") {
-			diverged = true
-		}
-		if o.Violation != "" {
+		if mm := audit(s.current(), m, pairs, c.Salt); mm != nil {
+			o.Violation = fmt.Sprintf("after step %d (%s %s): %s", i, op.Kind, ns, mm.detail)
 			return
+		}
+		if p := s.previous(); p != nil {
+			if mm := audit(p, prev, pairs, c.Salt); mm != nil {
+				o.Violation = fmt.Sprintf("after step %d (%s %s) [previous generation must be unchanged]: %s", i, op.Kind, ns, mm.detail)
+				return
+			}
 		}
 	}
 	o.NonTrivial = sharedName && colonPw
@@ -441,9 +448,6 @@ func run(c c29Case, s stepper, base model, fixed []cred) (o pbt.Outcome) {
 	}
 	if colonPw {
 		o.Labels = append(o.Labels, "colon_in_password")
-	}
-	if o.Violation == "" && knownDetail != "" {
-		o.Known, o.KnownWhat = "C29-F1", knownDetail
 	}
 	return
 }
@@ -474,6 +478,10 @@ func (s *umStepper) remove(ns string) error {
 	return nil
 }
 
+func (s *umStepper) failedPrepare(ns string, users []cred, kind int) error { return errNoPrepare }
+func (s *umStepper) reloadAround(ns string, users []cred, badNS string, badUsers []cred, kind int) error {
+	return errNoPrepare // the UserManager has no prepare phase: run interprets the step as a plain reload
+}
 func (s *umStepper) current() authenticator { return s.cur }
 func (s *umStepper) previous() authenticator {
 	if s.prev == nil {
@@ -492,8 +500,8 @@ func checkUM(c c29Case) (o pbt.Outcome) {
 }
 
 func TestC29UserManager(t *testing.T) {
-	pbt.Run(t, pbt.Spec{ID: "C29", Sub: "usermanager", Quick: 10000, Thorough: 100000,
-		Rule: "histories of 2-9 create/reload/delete operations over 4 namespaces, 1-3 users each, names and passwords of 1-3 tokens from an alphabet with ':' '|' '*' space quotes and non-ASCII letters (trimmed, non-empty, pairs unique across namespaces as the control plane enforces); each step is applied to a clone of the UserManager as the Manager does, then every pair of the history, every user x password combination, the colon-shifted relatives and empty passwords are authenticated against current and previous generation; non-trivial = some step touched a namespace while another holds the same user name, and a configured password contains ':'",
+	pbt.Run(t, pbt.Spec{ID: "C29", Sub: "usermanager", Quick: 5000, Thorough: 60000,
+		Rule:  "histories of 3-9 create/reload/delete operations over 4 namespaces, 1-3 users each, names and passwords of 1-3 tokens from an alphabet with ':' '|' '*' space quotes and non-ASCII letters (trimmed, non-empty, pairs unique across namespaces as the control plane enforces); each step is applied to a clone of the UserManager as the Manager does, then every pair of the history, every user x password combination, the colon-shifted relatives and empty passwords are authenticated against current and previous generation; non-trivial = some step touched a namespace while another holds the same user name, and a configured password contains ':'",
 		Floor: 0.4}, genCase, checkUM)
 }
 
@@ -520,9 +528,12 @@ var mgrCaseSeq int
 func prefixed(c c29Case, pre string) c29Case {
 	out := c29Case{Salt: c.Salt}
 	for _, o := range c.Ops {
-		n := op{Kind: o.Kind, NS: o.NS}
+		n := op{Kind: o.Kind, NS: o.NS, BadNS: o.BadNS, BadKind: o.BadKind}
 		for _, u := range o.Users {
 			n.Users = append(n.Users, cred{pre + u.U, u.P})
+		}
+		for _, u := range o.BadUsers {
+			n.BadUsers = append(n.BadUsers, cred{pre + u.U, u.P})
 		}
 		out.Ops = append(out.Ops, n)
 	}
@@ -567,7 +578,44 @@ func (s *mgrStepper) reload(ns string, users []cred) error {
 	}
 	return s.m.ReloadNamespaceCommit(ns)
 }
-func (s *mgrStepper) remove(ns string) error   { return s.m.DeleteNamespace(ns) }
+
+// badConfig is a configuration of ns with the given users that Verify accepts
+// and server.NewNamespace refuses (nsenv.BadConfig plants the defect).
+func badConfig(ns string, users []cred, kind int) *models.Namespace {
+	if kind < 1 || kind > nsenv.BadKinds {
+		kind = 1 + (kind%nsenv.BadKinds+nsenv.BadKinds)%nsenv.BadKinds
+	}
+	c := nsenv.BadConfig(ns, 0, kind)
+	c.Users = usersOf(ns, users)
+	return c
+}
+
+func (s *mgrStepper) failedPrepare(ns string, users []cred, kind int) error {
+	if err := s.m.ReloadNamespacePrepare(badConfig(ns, users, kind)); err == nil {
+		return fmt.Errorf("harness: ReloadNamespacePrepare accepted a configuration (kind %d) that NewNamespace was expected to refuse", kind)
+	}
+	return nil
+}
+
+func (s *mgrStepper) reloadAround(ns string, users []cred, badNS string, badUsers []cred, kind int) error {
+	cfg := nsConfig(ns, users)
+	if err := cfg.Verify(); err != nil {
+		return fmt.Errorf("harness: generated namespace rejected by Verify: %v", err)
+	}
+	if err := s.m.ReloadNamespacePrepare(cfg); err != nil {
+		return err
+	}
+	if err := s.failedPrepare(badNS, badUsers, kind); err != nil {
+		return err
+	}
+	// the failed prepare changed nothing: the commit activates what the first prepare staged
+	if err := s.m.ReloadNamespaceCommit(ns); err != nil {
+		return fmt.Errorf("commit after a failed prepare of %s: %v", badNS, err)
+	}
+	return nil
+}
+
+func (s *mgrStepper) remove(ns string) error  { return s.m.DeleteNamespace(ns) }
 func (s *mgrStepper) current() authenticator  { return s.m }
 func (s *mgrStepper) previous() authenticator { return nil }
 
@@ -603,7 +651,7 @@ func checkMgr(c c29Case) (o pbt.Outcome) {
 }
 
 func TestC29Manager(t *testing.T) {
-	pbt.Run(t, pbt.Spec{ID: "C29", Sub: "manager", Quick: 1000, Thorough: 5000,
-		Rule: "the same histories driven through one server.Manager (ReloadNamespacePrepare + ReloadNamespaceCommit, DeleteNamespace) next to a boot namespace that is never touched by the history; every case first deletes the four namespaces and reloads the boot namespace; authentication through Manager.CheckUser / CheckPassword / GetNamespaceByUser; non-trivial as for usermanager",
+	pbt.Run(t, pbt.Spec{ID: "C29", Sub: "manager", Quick: 400, Thorough: 3000,
+		Rule:  "the same histories driven through one server.Manager (ReloadNamespacePrepare + ReloadNamespaceCommit, DeleteNamespace; 20% of the operations are a prepare of a configuration NewNamespace refuses - alone, or between the prepare and the commit of a reload - which must fail and change nothing) next to a boot namespace that is never touched by the history; every case first deletes the four namespaces and reloads the boot namespace; authentication through Manager.CheckUser / CheckPassword / GetNamespaceByUser; non-trivial as for usermanager",
 		Floor: 0.4}, genCase, checkMgr)
 }
